@@ -33,6 +33,8 @@ pub enum POp {
     /// merge with the second sample set, in both argument orders
     Merge,
     Lo { with_ref: bool },
+    /// a table filtered down to zero k-mers (samples remain): save, reload, print, merge
+    Emptied,
 }
 impl POp {
     fn kind(&self) -> &'static str {
@@ -45,6 +47,7 @@ impl POp {
             POp::Delete { .. } => "delete",
             POp::Merge => "merge",
             POp::Lo { .. } => "lo",
+            POp::Emptied => "emptied",
         }
     }
 }
@@ -146,7 +149,11 @@ impl Workload for PersistWorkload {
             *rng.pick(&VALID_K)
         };
         let n = rng.range(2, 6);
-        let o = GenomeOpts::swarm(&mut rng, k);
+        let mut o = GenomeOpts::swarm(&mut rng, k);
+        if rng.chance(10) {
+            // thousands of k-mers
+            o.len = rng.range(2000, 5000);
+        }
         let samples = if fits64 { gen_fits64_samples(&mut rng, n, k, "s") } else { gen_samples(&mut rng, n, k, &o, "s") };
         let n2 = rng.range(1, 3);
         let samples2 = if fits64 && rng.chance(40) { gen_fits64_samples(&mut rng, n2, k, "t") } else { gen_samples(&mut rng, n2, k, &o, "t") };
@@ -155,11 +162,14 @@ impl Workload for PersistWorkload {
         let r = rng.pick(&samples);
         let joined: Vec<u8> = r.records.iter().flat_map(|x| x.1.clone()).collect();
         extra.insert("ref.fa".to_string(), crate::util::wrap_fasta("chr1", &joined, 60));
+        let nm = rng.dna(k + 25);
+        extra.insert("nomatch.fa".to_string(), crate::util::wrap_fasta("nm", &nm, 0));
         let nops = if tier == Tier::Quick { rng.range(3, 5) } else { rng.range(4, 8) };
         let names: Vec<String> = samples.iter().map(|s| s.name.clone()).collect();
         let mut ops = vec![POp::Nk];
         for _ in 0..nops {
-            ops.push(match rng.below(9) {
+            ops.push(match rng.below(10) {
+                9 => POp::Emptied,
                 0 => POp::Nk,
                 1 => {
                     let filter = SiteFilter::ALL[rng.below(4)];
@@ -378,6 +388,43 @@ impl Workload for PersistWorkload {
                                     }
                                 }
                                 _ => viol = v("persist:file-unreadable", "merged file unreadable".into()),
+                            }
+                        }
+                    }
+                }
+                POp::Emptied => {
+                    let a = ex.inmem("l1.txt", vec!["emptied".into(), "nomatch.fa".into(), "e.skf".into()])?;
+                    if !a.ok() {
+                        viol = v("persist:emptied-fails", format!("op {oi}: emptying a table in memory ended with {}: {}", a.status_str(), a.stderr_tail()));
+                    } else {
+                        let r = ex.run(vec!["nk".into(), "e.skf".into(), "--full-info".into()])?;
+                        viol = status(&a, &r);
+                        if viol.is_none() && nk_norm(&a.stdout) != nk_norm(&r.stdout) {
+                            viol = differs("the emptied table (nk --full-info)");
+                        }
+                        if viol.is_none() {
+                            if !built2 {
+                                let r2 = ex.build("g", "l2.txt")?;
+                                built2 = r2.ok();
+                            }
+                            if built2 {
+                                // both argument orders succeed and hold every sample of both files
+                                let r1 = ex.run(vec!["merge".into(), "e.skf".into(), "g.skf".into(), "-o".into(), "em1".into()])?;
+                                let r2 = ex.run(vec!["merge".into(), "g.skf".into(), "e.skf".into(), "-o".into(), "em2".into()])?;
+                                if !r1.ok() || !r2.ok() {
+                                    viol = v("persist:emptied-merge-fails", format!("merging the reloaded emptied table: {} / {}", r1.status_str(), r2.status_str()));
+                                } else if let (Ok(x), Ok(y), Ok(g), Ok(e)) = (inspect(&dir.p("em1.skf")), inspect(&dir.p("em2.skf")), inspect(&dir.p("g.skf")), inspect(&dir.p("e.skf"))) {
+                                    // (at small k the "no match" sequence does match a few k-mers: the table
+                                    // is then nearly, not completely, empty - the model merge covers both)
+                                    if e.table.rows.is_empty() {
+                                        probe("c09_table_with_samples_and_zero_kmers");
+                                    }
+                                    let m1 = crate::model::Table::merge(&[&e.table, &g.table]);
+                                    let m2 = crate::model::Table::merge(&[&g.table, &e.table]);
+                                    if m1.as_ref() != Ok(&x.table) || m2.as_ref() != Ok(&y.table) {
+                                        viol = v("persist:emptied-merge-differs", format!("merge of a reloaded (nearly) emptied table with another file differs from the table merge: {} / {}", m1.map(|m| m.diff(&x.table)).unwrap_or_default(), m2.map(|m| m.diff(&y.table)).unwrap_or_default()));
+                                    }
+                                }
                             }
                         }
                     }
